@@ -1,10 +1,11 @@
 """C01 - people are conserved: stocks change only by recorded flows."""
-from vlib import gen_model, simcase, oracles
+from hypothesis import strategies as st
+from vlib import gen_model, simcase, oracles, libcase
 from vlib.runner import Violation, Discard
 
 ID = "C01"
 RULE = (
-    "cases = generated ModelSpecs (ordinary/source/sink/junction/residual-junction/timed compartments, cycles, duration groups, 1-3 populations, "
+    "cases = perturbed library projects (12 library models, drawn y-factors, dt, start, horizon, programs on/off) and generated ModelSpecs (ordinary/source/sink/junction/residual-junction/timed compartments, cycles, duration groups, 1-3 populations, "
     "transfers, functions, all dt classes) run through Project.run_sim; oracle = per-compartment balance, junction pass-through (per bin in duration groups), "
     "global head count, tolerance 1e-9*max(1,stock); non-trivial = positive flow through at least two of {junction, timed flush, time-preserving link, "
     "transfer, source}; distinct = distinct spec hash"
@@ -23,10 +24,11 @@ def strategy(tier):
     prof = dict(PROFILE)
     if tier == "thorough":
         prof.update(max_steps=120, max_ord=6, max_pops=4)
-    return gen_model.model_specs(prof)
+    m = gen_model.model_specs(prof)
+    return st.one_of(m, m, m, m, m, libcase.lib_cases(20 if tier == "quick" else 80, quick=(tier == "quick")))
 
 
 def check(spec):
-    b, res = simcase.run_spec(spec)
+    b, res = simcase.run_any(spec)
     feats = oracles.conservation(res, ID)
     return {"nontrivial": len(feats) >= 2, "labels": simcase.labels_of(spec) + ["flow:" + f for f in sorted(feats)]}
